@@ -61,7 +61,10 @@ int cmd_z(const Args& a) {
         if (cbmode) c.SetZCallback([&](const Point64&, const Point64&, const Point64&, const Point64&, Point64& pt) { pt.z = ++counter; cb.push_back({pt.x, pt.y, pt.z}); });
 #endif
         Paths64 sol, op; c.Execute((ClipType)ct, (FillRule)fr, sol, op); ++nops;
-        emit(os, "bool", jints({ct, fr, cbmode, with_open}), in, sol, op, cbmode, cb); }
+        emit(os, "bool", jints({ct, fr, cbmode, with_open}), in, sol, op, cbmode, cb);
+        // a second Execute on the same object (callback set once): the Z accounting must hold again
+        cb.clear(); int ct2 = ct % 4 + 1; c.Execute((ClipType)ct2, (FillRule)fr, sol, op); ++nops;
+        emit(os, "bool", jints({ct2, fr, cbmode, with_open, 2}), in, sol, op, cbmode, cb); }
       if (fr == 1) { cb.clear(); counter = 2000000; ClipperD c(0); c.AddSubject(toD(S)); c.AddClip(toD(C));
 #ifdef USINGZ
         if (cbmode) c.SetZCallback([&](const PointD&, const PointD&, const PointD&, const PointD&, PointD& pt) { pt.z = ++counter; cb.push_back({(long long)std::llround(pt.x), (long long)std::llround(pt.y), (long long)pt.z}); });
